@@ -249,6 +249,32 @@ func inject(r *gen.Rand, v *spec.Version, s string, f func(d defect)) {
 			}
 		}
 	}
+	// several base metrics missing (v3): the error names the FIRST missing one in specification order
+	if isV3 {
+		for k := 0; k < 6; k++ {
+			var out []string
+			first := ""
+			drop := map[string]bool{}
+			n := 2 + r.Intn(3)
+			for len(drop) < n {
+				drop[v.Metrics[r.Intn(8)].Abv] = true
+			}
+			for _, me := range v.Metrics[:8] {
+				if drop[me.Abv] && first == "" {
+					first = me.Abv
+				}
+			}
+			for _, e := range el {
+				kk, _, _ := strings.Cut(e, ":")
+				if !drop[kk] {
+					out = append(out, e)
+				}
+			}
+			if len(out) > 0 {
+				f(defect{s: mk(out), kind: "missing-several-base-metrics", want: probe.EMissing, abv: first, pos: -1})
+			}
+		}
+	}
 	// truncation at an element boundary inside a group that must be complete
 	switch v.ID {
 	case spec.V20:
